@@ -35,7 +35,7 @@ CHECKS = {
  "C09": dict(text="Proof (Coq, partial): for every sequence of the token-book operations the code performs under its own tests, no assertion of jobserver.rs can fail (C09_no_token_assertion, invariant my,cheats in {0,1}); globally no book or pipe goes negative. Deadlock-freedom is not proved. On the implementation: all-success builds under perturbed schedules (processes stopped/continued at random so that child exits, token arrivals and lock hand-overs coincide), duplicate targets, contending invocations, externally held log locks (cheat storm): must end with exit 0, no panic, token trace accepted by the model.",
     note=TB + " the model assumes a cheat is granted only to a process holding none (not tested by the code; unconfirmed on the real binary, see DESIGN.md); OS fairness and the 60 s SQLite timeout are assumptions.",
     technique="Coq safety proof of the token-book automaton + schedule-perturbed runs of the implementation with trace validation", ref="5/C09"),
- "C12": dict(text="Proof (Coq, partial): the three detection rules return 208 at once without starting a job (target being built by an ancestor; script asking for its own target; recorded chain returning to a file under check); cycles of length 1..3 from every entry on the serial model; a dependency that was turned round is not a cycle (C12_dependency_in_mid_build_is_dirty, C12_reversed_dependency_is_no_cycle; finding F66). On the implementation: cycles of length 1..4 behind prefixes, every entry, -j1..4, bound 15 s. The parallel multi-entry hang is known finding F9.",
+ "C12": dict(text="Proof (Coq, partial): the two detection rules return 208 at once without starting a job (target being built by an ancestor; script asking for its own target); a recorded chain that returns to a file under check ends the walk with 'dirty' and changes nothing (C12_recorded_cycle_ends_the_walk; finding F78: recorded rows may be stale, the scripts decide); cycles of length 1..3 from every entry on the serial model; a dependency that was turned round is not a cycle (C12_dependency_in_mid_build_is_dirty, C12_reversed_dependency_is_no_cycle; finding F66). On the implementation: cycles of length 1..4 behind prefixes, every entry, -j1..4, bound 15 s. The parallel multi-entry hang is known finding F9.",
     note=TB + " termination of the nested recursion is not proved in Coq.",
     technique="Coq proof of the detection rules + bounded-time cyclic scenarios on the implementation", ref="5/C12"),
  "C08": dict(text="Proof (Coq): for every event sequence of any number of redo processes (start, nested begin, token read, cheat, reap with/without cheat byte, release, abandon-on-error-exit, self-test, exit) the quantity Q = T - C + sum(my - cheats) + J - L is conserved; all books and pipes stay non-negative; working jobs <= n + outstanding cheats, and <= n exactly when no cheat is granted (no log capture); with log capture 'n plus at most one' is proved FALSE of the model by a witness trace (known finding F50, driven on the binaries and replayed through the model on every run); the top-level self-test cannot fail; the tokenless exit of finding F7 is exactly the event the model refuses. Tie: trace validation -- every token-book event reported by the hooked implementation in real parallel builds (-j1..8, log capture on/off, failing builds, inherited jobserver, error exits with sibling jobs still running) is replayed through the extracted model, which must accept it and reproduce the reported book and pipe writes. Oracles: self-test message, inherited pipe content, measured work overlap.",
